@@ -454,3 +454,38 @@ example : (plan wEnv (fun _ => some 0) wChain wH).invariantsOk = true ∧
 
 
 end Pxv.Life
+
+/-! ### generic constructors -/
+namespace Pxv.Scope
+
+/-- **C04 (1) with generic constructors**: `get_or_try_bind` returns what the NEAREST ancestor-or-self scope offers for the
+    type, be it a concrete constructor or a generic one bound to the type; a scope further out is consulted only when
+    the nearer ones offer neither. -/
+theorem getT_nearest (g : SGraph) (regs : List (Nat × Ctor)) (tmpls : List (Nat × Tmpl)) (s ty : Nat)
+    (hd : Decr g.parents) (hs : s ≤ g.app) (ht : TreeAbove g s) :
+    getT g regs tmpls s ty = firstHit (fun k => lookupT regs tmpls k ty) (ancestors g s) := by
+  unfold getT ancestors
+  rw [bfs_chain _ _ _ _ (Walk.treeFrom_more _ hd s ht _)]
+  rw [chainF_stable _ hd s _ (Walk.fuel_ge g s hs)]
+
+/-- inside one scope the concrete constructor is preferred to a template -/
+theorem lookupT_concrete_first (regs : List (Nat × Ctor)) (tmpls : List (Nat × Tmpl)) (s ty : Nat) (c : Ctor)
+    (h : lookup regs s ty = some c) : lookupT regs tmpls s ty = some c := by
+  simp [lookupT, h]
+
+/-- a template of a nearer scope wins over a concrete constructor of a scope further out -/
+theorem template_shadows_outer_concrete (g : SGraph) (regs : List (Nat × Ctor)) (tmpls : List (Nat × Tmpl)) (s ty : Nat)
+    (c : Ctor) (hown : lookupT regs tmpls s ty = some c) : getT g regs tmpls s ty = some c := by
+  unfold getT SGraph.fuel
+  simp [bfs, hown]
+
+/-- what the theorem excludes: root (scope 0) registers a concrete constructor 7 for type 0, the nested scope 1 a template
+    9 for it; from scope 1 the template wins, the fast-path variant answers with the root's constructor. -/
+example :
+    let g : SGraph := { app := 2, edges := [(0, 1), (1, 2)] }
+    let regs : List (Nat × Ctor) := [(0, { id := 7, ty := 0 })]
+    let tmpls : List (Nat × Tmpl) := [(1, { id := 9, insts := [0, 1] })]
+    (getT g regs tmpls 1 0).map (·.id) = some 9 ∧ (getTFast g regs tmpls 1 0).map (·.id) = some 7 ∧
+    (getT g regs tmpls 0 0).map (·.id) = some 7 := by decide
+
+end Pxv.Scope
